@@ -168,7 +168,14 @@ theorem chase_bwd : ∀ (h : Nat) (p e : Pos), S.Good p → chase S.b2 h p = som
 /-- the hop bound is large enough for every chain of the first bundle that ends at all -/
 def Adequate (b : Bundle) (hops : Nat) : Prop := ∀ h p e, chase b h p = some e → chase b hops p = some e
 
-theorem chase_eq (hops : Nat) (had : Adequate S.b1 hops) (p : Pos) (hg : S.Good p) :
+/-- … for the chains that start at the positions `Q` -/
+def AdequateOn (Q : Pos → Prop) (b : Bundle) (hops : Nat) : Prop :=
+  ∀ h p e, Q p → chase b h p = some e → chase b hops p = some e
+
+theorem Adequate.on {b : Bundle} {hops : Nat} (h : Adequate b hops) (Q : Pos → Prop) : AdequateOn Q b hops :=
+  fun h' p e _ hc => h h' p e hc
+
+theorem chase_eq_on (hops : Nat) (had : AdequateOn S.Good S.b1 hops) (p : Pos) (hg : S.Good p) :
     chase S.b2 hops p = chase S.b1 hops p := by
   cases hc : chase S.b1 hops p with
   | some e => exact S.chase_fwd hops p e hg hc
@@ -177,8 +184,18 @@ theorem chase_eq (hops : Nat) (had : Adequate S.b1 hops) (p : Pos) (hg : S.Good 
     | none => rfl
     | some e =>
       obtain ⟨h', hh'⟩ := S.chase_bwd hops p e hg hc2
-      rw [had h' p e hh'] at hc
+      rw [had h' p e hg hh'] at hc
       cases hc
+
+theorem chase_eq (hops : Nat) (had : Adequate S.b1 hops) (p : Pos) (hg : S.Good p) :
+    chase S.b2 hops p = chase S.b1 hops p := S.chase_eq_on hops (had.on _) p hg
+
+/-- the re-targeted bundle needs no more hops than the original one: adequacy of the hop bound (on the good positions)
+    survives the step, so that steps can be chained -/
+theorem adequateOn_preserved (hops : Nat) (had : AdequateOn S.Good S.b1 hops) : AdequateOn S.Good S.b2 hops := by
+  intro h p e hg hc
+  obtain ⟨h', hh'⟩ := S.chase_bwd h p e hg hc
+  exact S.chase_fwd hops p e hg (had h' p e hg hh')
 
 theorem chase_good : ∀ (h : Nat) (p e : Pos), S.Good p → chase S.b1 h p = some e → S.Good e := by
   intro h
@@ -200,13 +217,13 @@ theorem chase_good : ∀ (h : Nat) (p e : Pos), S.Good p → chase S.b1 h p = so
         | some tq => simp only [ht] at hc; exact ih tq e (S.hgoodT _ _ _ ht) hc
 
 /-- re-targeting a `$ref` along its own chain preserves the meaning of every position -/
-theorem retarget_preserves (hops : Nat) (had : Adequate S.b1 hops) :
+theorem retarget_preserves_on (hops : Nat) (had : AdequateOn S.Good S.b1 hops) :
     ∀ n p, S.Good p → unfold S.b1 hops n p = unfold S.b2 hops n p := by
   intro n p hg
   refine bisim_sound S.b1 S.b2 hops hops (fun p q => p = q ∧ S.Good p) ?_ n p p ⟨rfl, hg⟩
   rintro p q ⟨rfl, hgp⟩
   unfold StepOK
-  rw [S.chase_eq hops had p hgp]
+  rw [S.chase_eq_on hops had p hgp]
   cases hc : chase S.b1 hops p with
   | none => trivial
   | some e =>
@@ -232,6 +249,10 @@ theorem retarget_preserves (hops : Nat) (had : Adequate S.b1 hops) :
         · exact (hno _ _ rfl rfl).elim
         · exact (hna _ _ rfl rfl).elim
         · exact hs
+
+theorem retarget_preserves (hops : Nat) (had : Adequate S.b1 hops) :
+    ∀ n p, S.Good p → unfold S.b1 hops n p = unfold S.b2 hops n p :=
+  S.retarget_preserves_on hops (had.on _)
 
 end RSetting
 end Proofs.Retarget
